@@ -829,8 +829,26 @@ def generate(repo, ov, prop=None, canary=False, only=None):
     em.raw("// GENERATED by tools/vx.py from the working tree of the repository — do not edit\n")
     em.raw("#![allow(unused_imports, unused_variables, unused_mut, dead_code, unused_parens, unused_braces, non_snake_case, unused_assignments)]\n")
     em.raw("use vstd::prelude::*;\n")
-    first_raw = True
+    # modules may be opened several times in the overlay; emit each once, at its first occurrence, with all its parts
+    ordered = []; cur = None; mods = OrderedDict()
     for part in ov.parts:
+        if part[0] == "modopen":
+            cur = part[1]
+            if cur not in mods:
+                mods[cur] = []
+                ordered.append(("modopen", cur))
+            continue
+        if part[0] == "modclose":
+            cur = None; continue
+        if cur is None: ordered.append(part)
+        else: mods[cur].append(part)
+    flat = []
+    for part in ordered:
+        if part[0] == "modopen":
+            flat.append(part); flat.extend(mods[part[1]]); flat.append(("modclose",))
+        else:
+            flat.append(part)
+    for part in flat:
         if part[0] == "raw":
             em.raw(part[1])
         elif part[0] == "modopen":
